@@ -4,13 +4,16 @@
 Require Extraction.
 Require Import ExtrOcamlBasic.
 From Coq Require Import String List.
-From ClasticV Require Import Base.Sx Model.Stats Model.ChainIO.
+From ClasticV Require Import Base.Sx Model.Stats Model.ChainIO Model.DispatchIO.
 Local Open Scope string_scope.
 
 Definition dispatch (tag : string) (s : sexp) : sexp :=
   if String.eqb tag "reservoir" then run_reservoir s
   else if String.eqb tag "stats" then run_stats s
   else if String.eqb tag "chainlab" then run_chainlab s
+  else if String.eqb tag "dispatchlab" then run_dispatchlab s
+  else if String.eqb tag "methodslab" then run_methodslab s
+  else if String.eqb tag "normpath" then run_normpath s
   else A "UNKNOWN-TAG".
 
 Extraction Blacklist String List Nat Bool.
